@@ -57,7 +57,8 @@ func getHorizontalDirection(script language.Script) Direction {
 		language.Avestan, language.Imperial_Aramaic, language.Inscriptional_Pahlavi, language.Inscriptional_Parthian, language.Old_South_Arabian, language.Old_Turkic,
 		language.Samaritan, language.Mandaic, language.Meroitic_Cursive, language.Meroitic_Hieroglyphs, language.Manichaean, language.Mende_Kikakui,
 		language.Nabataean, language.Old_North_Arabian, language.Palmyrene, language.Psalter_Pahlavi, language.Hatran, language.Adlam, language.Hanifi_Rohingya,
-		language.Old_Sogdian, language.Sogdian, language.Elymaic, language.Chorasmian, language.Yezidi:
+		language.Old_Sogdian, language.Sogdian, language.Elymaic, language.Chorasmian, language.Yezidi,
+		language.Old_Uyghur:
 
 		return RightToLeft
 
